@@ -60,7 +60,12 @@ class Ctx:
             # the rejection clauses (C10) are not repeated here
             if clause.startswith("raises:") or "compatible" in clause or "rejects" in clause:
                 return
-            props = ["C04"] + (["C16"] if "C16" in props else []) + (["C06"] if "C06" in props and self.method == "copy" else [])
+            keep = ["C04"] + (["C16"] if "C16" in props else []) + (["C06"] if "C06" in props and self.method == "copy" else [])
+            if clause == "ensures:content-type":
+                # the content type of a merge / scaling result decides what later merges accept (C10) and whether + stays
+                # associative on reloaded partial results (C01), whether a scaled reload can be merged (C08)
+                keep += [p for p in props if p in ("C01", "C08", "C10")]
+            props = keep
         s = st.fork()
         if callable(goal):
             goal = goal(s)
@@ -453,7 +458,7 @@ def ob_zero(P, K, hooks=None, mode="live"):
             cx.emit(["C01", "C05"], "ensures:view", p, s, lambda s2: eq_views(s2, K, view_of(s2, r.v, K), specs.zero(K, s2, a)))
             cx.emit(["C04", "C01"], "ensures:quantity", p, s, lambda s2: quantity_same(s2, pre, selfv, r.v))
             if K in ("SparselyBin", "Categorize"):
-                cx.emit(["C04", "C01"], "ensures:content-type", p, s, lambda s2: content_shape(s2, r.v) == content_shape(pre, selfv))
+                cx.emit(["C04", "C01", "C10"], "ensures:content-type", p, s, lambda s2: content_shape(s2, r.v) == content_shape(pre, selfv))
             cx.emit(["C05"], "ensures:bk", p, s, lambda s2: bk_goal(s2, K, r.v, pre, [selfv]))
     return cx
 
@@ -532,7 +537,7 @@ def ob_add(P, K, hooks=None, mode="live"):
                 cx.emit(["C01", "C05"], "ensures:view", p, s, lambda s2: plus_goal(s2, K, a, b, view_of(s2, r.v, K)))
                 cx.emit(["C04", "C01"], "ensures:quantity", p, s, lambda s2: quantity_same(s2, pre, selfv, r.v))
                 if K in ("SparselyBin", "Categorize"):
-                    cx.emit(["C04", "C01"], "ensures:content-type", p, s, lambda s2: content_shape(s2, r.v) == content_shape(pre, selfv))
+                    cx.emit(["C04", "C01", "C10"], "ensures:content-type", p, s, lambda s2: content_shape(s2, r.v) == content_shape(pre, selfv))
                 cx.emit(["C05"], "ensures:bk", p, s, lambda s2: bk_goal(s2, K, r.v, pre, [selfv, other]))
         out.append(cx)
     return out
